@@ -765,7 +765,7 @@ func buildObj(h HV) (obj interface{}, errText string) {
 
 // apiProbeNames: the names GetVariable is asked for after every run of an API case
 func apiProbeNames(c *Case) []string {
-	names := []string{"v", "w", "x", "unset", "neverAssigned", "OPTIMIZE"}
+	names := []string{"v", "w", "x", "unset", "neverAssigned", "OPTIMIZE", "$v", "$neverAssigned"}
 	seen := map[string]bool{}
 	for _, n := range names {
 		seen[n] = true
